@@ -86,7 +86,10 @@ func seekAndMux(
 			var init *fmp4.Init
 			init, _, err = segmentFMP4ReadHeader(f)
 			if err != nil {
-				return err
+				// the segment cannot be read
+				// (for instance, it was being created when the server was stopped abruptly):
+				// serve what precedes it.
+				break
 			}
 
 			if !segmentFMP4CanBeConcatenated(prevInit, segmentEnd, init, seg.Start) {
